@@ -101,13 +101,13 @@ def trees(draw, names, depth=4, pool=None, tags=None, max_arity=5, leaf=None, co
 
 
 @st.composite
-def dags(draw, names, max_defs=5, depth=2, tags=None):
+def dags(draw, names, max_defs=5, depth=2, tags=None, const_bias=3):
     """let-list: definition i may use leaves and definitions < i as children; the builder maps
     every definition to one object."""
     k = draw(st.integers(1, max_defs))
     pool = []
     for _ in range(k):
-        node = draw(trees(names, depth=depth, pool=list(pool), tags=tags))
+        node = draw(trees(names, depth=depth, pool=list(pool), tags=tags, const_bias=const_bias))
         pool.append(node)
     root = pool[-1]
     if len(pool) >= 2 and draw(st.booleans()):
@@ -149,11 +149,41 @@ def wide(draw, names, max_arity=12):
     return m
 
 
+@st.composite
+def covering(draw, names, depth=2, tags=None):
+    """An expression in which every name really occurs (several variables at once), built from
+    one generated sub-tree per name joined by generated binary / n-ary operators."""
+    parts = []
+    for n in names:
+        t = draw(trees(names, depth=depth, tags=tags, const_bias=2))
+        op = draw(st.sampled_from(["Multiply", "Add", "Minus", "Divide", "Power", "none"]))
+        v = ("Variable", n)
+        if tags is not None and op not in tags:
+            op = "Add" if "Add" in tags else "none"
+        if op == "none":
+            parts.append(v if draw(st.booleans()) else ("Add", (t, v)))
+        elif op in M.NARY:
+            parts.append((op, (t, v)) if draw(st.booleans()) else (op, (v, t)))
+        else:
+            parts.append((op, t, v) if draw(st.booleans()) else (op, v, t))
+    root = parts[0]
+    for p in parts[1:]:
+        op = draw(st.sampled_from(["Multiply", "Add", "Minus", "Divide"]))
+        if tags is not None and op not in tags:
+            op = "Add" if "Add" in tags else "Multiply"
+        if op in M.NARY:
+            root = (op, (root, p, root)) if draw(st.integers(0, 4)) == 0 else (op, (root, p))
+        else:
+            root = (op, root, p)
+    return root
+
+
 def expressions(names, depth=4, tags=None):
-    """The general mix: trees (60 %), DAGs (25 %), chains, wide nodes."""
+    """The general mix: trees (50 %), DAGs (20 %), all-variables-occur (15 %), chains, wide nodes."""
     return st.integers(0, 19).flatmap(
-        lambda k: trees(names, depth=depth, tags=tags) if k < 11
-        else dags(names, tags=tags) if k < 16
+        lambda k: trees(names, depth=depth, tags=tags) if k < 10
+        else dags(names, tags=tags) if k < 14
+        else covering(names, tags=tags) if k < 17
         else chains(names) if k < 18 and tags is None
         else wide(names) if tags is None
         else trees(names, depth=depth, tags=tags))
